@@ -236,7 +236,14 @@ func ReceivePack(
 
 	if opts.Hooks.PostReceive != nil {
 		applied := make([]*packp.Command, 0, len(updreq.Commands))
+		first := make(map[plumbing.ReferenceName]struct{}, len(updreq.Commands))
 		for _, cmd := range updreq.Commands {
+			// Only the first command for a name has an outcome; a repeat
+			// was refused by updateReferences.
+			if _, repeat := first[cmd.Name]; repeat {
+				continue
+			}
+			first[cmd.Name] = struct{}{}
 			if cmdStatus[cmd.Name] == nil {
 				applied = append(applied, cmd)
 			}
@@ -333,6 +340,16 @@ func referenceExists(s storer.ReferenceStorer, n plumbing.ReferenceName) (bool, 
 
 func updateReferences(st storage.Storer, req *packp.UpdateRequests, cmdStatus map[plumbing.ReferenceName]error, firstErr *error) {
 	for _, cmd := range req.Commands {
+		// One outcome is reported per reference name. A further command for
+		// a name that already has one is refused without touching that
+		// outcome, which may be the one of an update that was applied.
+		if _, done := cmdStatus[cmd.Name]; done {
+			if *firstErr == nil {
+				*firstErr = ErrUpdateReference
+			}
+			continue
+		}
+
 		exists, err := referenceExists(st, cmd.Name)
 		if err != nil {
 			setStatus(cmdStatus, firstErr, cmd.Name, err)
